@@ -554,8 +554,12 @@ def run(prog, rep, tier):
             ok = ok and (guarded or defaulted or branch)
         rep.check("NONE.guard", ok, fwhere(f, c.node), "%s is parsed only when it is truthy / defaulted to {} (None skips the block)" % fmt(x)[:60],
                   "%s may reach .items() when it is None" % fmt(x)[:60])
-    rep.check("NONE.blocks", kinds_seen == set(KINDS.values()), fwhere(f),
-              "do, shift and noise interventions are each parsed", "not all three intervention kinds are parsed: %s" % sorted(kinds_seen))
+    if not kinds_seen:
+        # no call of the parser on one of the three arguments was recognised at all (the arguments are collected first, parsed in a loop ...): not read
+        rep.unk("NONE.blocks", fwhere(f), "no parse of do_interventions / shift_interventions / noise_interventions was recognised: how the arguments reach the parser is not read")
+    else:
+        rep.check("NONE.blocks", kinds_seen == set(KINDS.values()), fwhere(f),
+                  "do, shift and noise interventions are each parsed", "not all three intervention kinds are parsed: %s" % sorted(kinds_seen))
     # ---- forwarding to the sampler / population switch
     rets = S.select("return", qname=f.qname)
     pop = [r for r in rets if r.value[0] == "new"]
@@ -613,7 +617,18 @@ def run(prog, rep, tier):
     rs = [r for r in Sp.select("raise", qname=fp.qname) if r.exctype == "ValueError"]
     rep.check("LAYOUT.reject", len(rs) >= 1, fwhere(fp), "anything else raises ValueError", "malformed parameters are not rejected")
     ok = ret[0] == "ext" and ret[1] in ("numpy.array", "numpy.asarray") and ret[2] and (ret[2][0][0] == "after" or comp is not None)
-    rep.check("LAYOUT.array", ok, fwhere(fp), "rows are returned as one array (columns = fields)", "parsed rows are not returned as an array")
+    core_ = ret
+    while core_[0] == "method" and core_[2] in ("reshape", "astype", "copy"):
+        core_ = core_[1]
+    listish = ret[0] in ("after", "list", "comp", "tuple")                      # the rows themselves, not packed into an array: indexing [:, 0] fails
+    if ok:
+        rep.ok("LAYOUT.array", fwhere(fp), "rows are returned as one array (columns = fields)")
+    elif listish:
+        rep.bad("LAYOUT.array", fwhere(fp), "parsed rows are not returned as an array")
+    elif core_[0] == "ext" and core_[1] in ("numpy.array", "numpy.asarray") and core_ is not ret:
+        rep.unk("LAYOUT.array", fwhere(fp), "the array of rows is reshaped / converted before it is returned (%s): whether the columns stay [target, p0, p1] is not read" % fmt(ret)[:60])
+    else:
+        rep.unk("LAYOUT.array", fwhere(fp), "what _parse_interventions returns (%s) is not read" % fmt(ret)[:60])
     # ---- RANGE (constructor)
     fc = need(prog, LG + "LGANM.__init__")
     Sc = Sym(prog)
